@@ -1,7 +1,7 @@
 #!/bin/bash
 # gofmt_sweep.sh: applies behaviour-preserving gofmt -r rewrites to a scratch copy of the committed tree and runs every property.
 export PATH=/opt/veriftools/go1.26.8/bin:$PATH GOTOOLCHAIN=local GOFLAGS=-mod=mod GOPROXY=off GOSUMDB=off CGO_ENABLED=0
-rules=("a > b -> b < a" "a <= b -> !(a > b)" "a < b -> !(a >= b)" "a != b -> !(a == b)" "a == false -> !a" "a == true -> a" "a != nil -> !(a == nil)" "a << 3 -> a * 8" "a >= b -> !(a < b)" "a += b -> a = a + b" "a - 1 -> a + -1")
+rules=("a < b -> b > a" "a <= b -> b >= a" "a >= b -> b <= a" "a == b -> b == a" "a != b -> b != a" "a && b -> !(!a || !b)" "a || b -> !(!a && !b)" "a -= b -> a = a - b" "a++ -> a += 1" "a > b -> b < a" "a <= b -> !(a > b)" "a < b -> !(a >= b)" "a != b -> !(a == b)" "a == false -> !a" "a == true -> a" "a != nil -> !(a == nil)" "a << 3 -> a * 8" "a >= b -> !(a < b)" "a += b -> a = a + b" "a - 1 -> a + -1")
 for r in "${rules[@]}"; do
   t=$(mktemp -d /tmp/kzfmt.XXXXXX); git -C /repo archive HEAD v2 | tar -x -C $t
   for f in $(find $t/v2 -name '*.go' ! -name '*_test.go'); do gofmt -r "$r" -w $f 2>/dev/null; done
